@@ -346,7 +346,7 @@ def cargo_env():
             "CARGO_TARGET_DIR": target_dir()}
 
 
-def harness_build(pkgs, timeout=3000):
+def harness_build(pkgs, timeout=int(os.environ.get("VERIF_BUILD_TIMEOUT", "7200"))):
     """Build harness package(s) against the current working tree of $VERIF_REPO. Returns (ok, log)."""
     render_harness()
     if isinstance(pkgs, str):
